@@ -18,7 +18,9 @@ use serde::{Deserialize, Serialize};
 use std::collections::{BTreeMap, BTreeSet, HashMap};
 
 const PROP: &str = "C02";
-const BASE_MS: i64 = 1_700_000_000_000;
+const BASE_MS_NOW: i64 = 1_700_000_000_000;
+/// 2300-01-01: beyond what a signed 64-bit count of nanoseconds since 1970 can hold (that ends in 2262)
+const BASE_MS_2300: i64 = 10_413_792_000_000;
 
 #[derive(Clone, Debug, Serialize, Deserialize, PartialEq)]
 pub enum Cond {
@@ -85,6 +87,12 @@ pub struct FwdTrace {
     /// are not on a whole second, evaluation instants in the same second on either side of them
     #[serde(default)]
     pub frac: u16,
+    /// 1: the date lattice and every evaluation instant lie in the year 2300 instead of 2023
+    #[serde(default)]
+    pub epoch: u8,
+    /// 1: rule, agenda-group and activation-group names that differ only in case, white space or punctuation
+    #[serde(default)]
+    pub names: u8,
 }
 
 pub struct FwdWorld;
@@ -92,15 +100,25 @@ pub struct FwdWorld;
 thread_local! {
     /// the run's sub-second offset of the date lattice (FwdTrace::frac)
     static FRAC: std::cell::Cell<i64> = const { std::cell::Cell::new(0) };
+    /// the run's epoch (FwdTrace::epoch) and naming style (FwdTrace::names)
+    static EPOCH: std::cell::Cell<u8> = const { std::cell::Cell::new(0) };
+    static NAMES: std::cell::Cell<u8> = const { std::cell::Cell::new(0) };
+}
+fn base_ms() -> i64 {
+    if EPOCH.with(|e| e.get()) == 1 {
+        BASE_MS_2300
+    } else {
+        BASE_MS_NOW
+    }
 }
 fn lattice_ms(i: u8) -> i64 {
-    BASE_MS + (i as i64) * 1000 + FRAC.with(|f| f.get())
+    base_ms() + (i as i64) * 1000 + FRAC.with(|f| f.get())
 }
 /// evaluation instants: the odd ones lie exactly on the lattice points, the even ones half a second before —
 /// at a whole-second offset, that is; with a lattice offset of 750 ms an even instant falls in the same
 /// wall-clock second as the lattice point after it
 fn eval_ms(e: u8) -> i64 {
-    BASE_MS - 500 + (e as i64) * 500 + if e % 2 == 1 { FRAC.with(|f| f.get()) } else { 0 }
+    base_ms() - 500 + (e as i64) * 500 + if e % 2 == 1 { FRAC.with(|f| f.get()) } else { 0 }
 }
 fn dt(ms: i64) -> DateTime<Utc> {
     Utc.timestamp_millis_opt(ms).single().expect("valid instant")
@@ -108,6 +126,8 @@ fn dt(ms: i64) -> DateTime<Utc> {
 fn group(g: u8) -> String {
     match g {
         0 => "MAIN".to_string(),
+        // naming style 1: a group whose name differs from MAIN only in case, and one with a blank in it
+        n if NAMES.with(|x| x.get()) == 1 => ["main", "Main "][n as usize % 2].to_string(),
         n => format!("g{n}"),
     }
 }
@@ -115,7 +135,20 @@ fn fname(f: u8) -> &'static str {
     ["F.x", "F.y", "F.z"][f as usize % 3]
 }
 fn rname(r: &FRule) -> String {
-    format!("R{}", r.name_id)
+    // naming style 1: names that differ only in case, white space or punctuation, or are prefixes of one another
+    const FAMILY: [&str; 8] = ["rule", "Rule", "rule ", "RULE", "rule.1", "rule1", "rule-1", "rule 1"];
+    if NAMES.with(|n| n.get()) == 1 && (r.name_id as usize) < FAMILY.len() {
+        FAMILY[r.name_id as usize].to_string()
+    } else {
+        format!("R{}", r.name_id)
+    }
+}
+fn agroup(a: u8) -> String {
+    if NAMES.with(|n| n.get()) == 1 {
+        ["a", "A", "a "][a as usize % 3].to_string()
+    } else {
+        format!("a{a}")
+    }
 }
 
 fn cond_to_group(c: &Cond) -> ConditionGroup {
@@ -181,7 +214,7 @@ fn to_rule(r: &FRule) -> Rule {
         rule = rule.with_agenda_group(group(r.agenda_group));
     }
     if r.activation_group > 0 {
-        rule = rule.with_activation_group(format!("a{}", r.activation_group));
+        rule = rule.with_activation_group(agroup(r.activation_group));
     }
     if let Some(e) = r.effective {
         rule = rule.with_date_effective(dt(lattice_ms(e)));
@@ -631,7 +664,7 @@ impl World for FwdWorld {
         // one run in 16: a large, mostly-equal-salience rule set (sorting algorithms switch strategy
         // above ~20 elements; an unstable sort only shows there)
         let large = rng.chance(1, 16);
-        let n = if large { 21 + rng.usize(28) } else { 1 + rng.usize(8) };
+        let n = if large { if rng.chance(1, 4) { 65 + rng.usize(66) } else { 21 + rng.usize(28) } } else { 1 + rng.usize(8) };
         let mut rules = Vec::new();
         for _ in 0..n {
             let mut r = gen_rule(rng, next_id);
@@ -703,6 +736,8 @@ impl World for FwdWorld {
             tick_pattern: if rng.chance(1, 5) { vec![*rng.pick(&[1u8, 250, 250]), 0] } else { vec![] },
             cfg: (rng.chance(1, 3), rng.chance(1, 10), rng.chance(1, 6)),
             frac: *rng.pick(&[0u16, 0, 250, 750]),
+            epoch: if rng.chance(1, 8) { 1 } else { 0 },
+            names: if !large && rng.chance(1, 6) { 1 } else { 0 },
         }
     }
 
@@ -713,6 +748,17 @@ impl World for FwdWorld {
     fn run(&self, _prop: &str, t: &FwdTrace, obs: &mut Obs) -> Result<(), Violation> {
         obs.fp_str(&serde_json::to_string(t).unwrap_or_default());
         FRAC.with(|f| f.set(t.frac as i64));
+        EPOCH.with(|e| e.set(t.epoch));
+        NAMES.with(|n| n.set(t.names));
+        if t.epoch == 1 {
+            obs.count("probe.dates_beyond_the_year_2262");
+        }
+        if t.names == 1 {
+            obs.count("probe.names_that_differ_only_in_case_or_white_space");
+        }
+        if t.rules.len() > 64 {
+            obs.count("probe.more_than_64_rules");
+        }
         if t.frac != 0 && t.rules.iter().any(|r| r.effective.is_some() || r.expires.is_some()) {
             obs.count("probe.date_bound_not_on_a_whole_second");
         }
@@ -917,8 +963,8 @@ impl World for FwdWorld {
                             site,
                             sig,
                             format!(
-                                "at instant(s) {:?} (lattice base {BASE_MS}, max_cycles {}): observed fired {:?} cycles {} fired-count {} active {} facts {:?}; no admissible reading of the property predicts that — closest prediction: fired {:?} cycles {} fired-count {} active {} facts {:?} ({} prediction(s) considered)",
-                                instants, t.max_cycles, observed.fired, observed.cycle_count, observed.rules_fired, observed.active, observed.facts, pred.fired, pred.cycle_count, pred.rules_fired, pred.active, pred.facts, all.len()
+                                "at instant(s) {:?} (lattice base {}, max_cycles {}): observed fired {:?} cycles {} fired-count {} active {} facts {:?}; no admissible reading of the property predicts that — closest prediction: fired {:?} cycles {} fired-count {} active {} facts {:?} ({} prediction(s) considered)",
+                                instants, base_ms(), t.max_cycles, observed.fired, observed.cycle_count, observed.rules_fired, observed.active, observed.facts, pred.fired, pred.cycle_count, pred.rules_fired, pred.active, pred.facts, all.len()
                             ),
                             step,
                         ));
@@ -1008,6 +1054,12 @@ impl World for FwdWorld {
         }
         if !t.tick_pattern.is_empty() {
             out.push(FwdTrace { tick_pattern: vec![], ..t.clone() });
+        }
+        if t.epoch != 0 {
+            out.push(FwdTrace { epoch: 0, ..t.clone() });
+        }
+        if t.names != 0 {
+            out.push(FwdTrace { names: 0, ..t.clone() });
         }
         let simplify = |r: &FRule| -> Vec<FRule> {
             let mut alts = Vec::new();
